@@ -79,8 +79,18 @@ class _FilesystemDataSource(DataSource):
     def _write_non_versioned_link(self, versioned_key: VersionedDataSourceKey):
         non_versioned_path = self._get_non_versioned_link_path(versioned_key.key)
         versioned_path = self._get_path_versioned(versioned_key)
-        with open(str(non_versioned_path), "w") as f:
-            f.write(str(versioned_path))
+        # Write the link next to the versioned object and move it into place, so that a crash
+        # or an I/O error part-way never leaves an empty or truncated link behind: such a link
+        # would be trusted as "this key exists" and point at a version that does not.
+        tmp_path = versioned_path.with_name(versioned_path.name + ".link.tmp")
+        try:
+            with open(str(tmp_path), "w") as f:
+                f.write(str(versioned_path))
+            os.replace(str(tmp_path), str(non_versioned_path))
+        except BaseException:
+            if tmp_path.exists():
+                tmp_path.unlink()
+            raise
 
     def _delete_non_versioned_link(self, key: DataSourceKey):
         non_versioned_path = self._get_non_versioned_link_path(
@@ -202,6 +212,9 @@ class _FilesystemDataSource(DataSource):
         basename = os.path.basename(self._escape_key(key.key))
         # Remove metadata stored with objects:
         for match in versions_dir.glob("*/{}.meta.*".format(basename)):
+            match.unlink()
+        # Remove link files left half-written by an interrupted write
+        for match in versions_dir.glob("*/{}.link.tmp".format(basename)):
             match.unlink()
         # Remove objects
         for match in versions_dir.glob("*/{}".format(basename)):
